@@ -19,8 +19,7 @@ var fset = token.NewFileSet()
 func parse(root, rel string) *ast.File {
 	f, err := parser.ParseFile(fset, filepath.Join(root, rel), nil, parser.ParseComments)
 	if err != nil {
-		fmt.Fprintln(os.Stderr, "extract:", err)
-		os.Exit(1)
+		fail("%v", err)
 	}
 	return f
 }
@@ -31,14 +30,30 @@ func funcDecl(f *ast.File, name string) *ast.FuncDecl {
 			return fd
 		}
 	}
-	fmt.Fprintln(os.Stderr, "extract: function not found:", name)
-	os.Exit(1)
+	fail("function not found: %s", name)
 	return nil
 }
 
+type extractErr string
+
+// fail aborts the extraction of the CURRENT table only (see table())
 func fail(format string, a ...any) {
-	fmt.Fprintf(os.Stderr, "extract: "+format+"\n", a...)
-	os.Exit(1)
+	panic(extractErr(fmt.Sprintf(format, a...)))
+}
+
+// table runs one extraction; when the source no longer has the expected shape the table is
+// reported as "-- EXTRACT-ERROR <names>: why" and the others are still produced
+func table(b *strings.Builder, names string, f func() string) {
+	defer func() {
+		if r := recover(); r != nil {
+			if e, ok := r.(extractErr); ok {
+				fmt.Fprintf(b, "-- EXTRACT-ERROR %s: %s\n", names, strings.ReplaceAll(string(e), "\n", " "))
+				return
+			}
+			fmt.Fprintf(b, "-- EXTRACT-ERROR %s: %v\n", names, r)
+		}
+	}()
+	b.WriteString(f())
 }
 
 // value of an expression that is an int literal, a string literal, http.StatusX or http.MethodX
@@ -286,7 +301,8 @@ func constValue(f *ast.File, name string) ast.Expr {
 
 func main() {
 	if len(os.Args) < 2 {
-		fail("usage: extract <repo>")
+		fmt.Fprintln(os.Stderr, "usage: extract <repo>")
+		os.Exit(2)
 	}
 	root := os.Args[1]
 	var b strings.Builder
@@ -294,144 +310,168 @@ func main() {
 	b.WriteString("-- Regenerated on every check; theorems over these tables are re-checked against the code as it is now.\n")
 	b.WriteString("namespace Httpcache.Generated\n")
 
-	ce := parse(root, "internal/cacheabilityevaluator.go")
-	b.WriteString(leanNatList("statusUnderstood", switchCases(funcDecl(ce, "isStatusUnderstood"), "true")))
-	b.WriteString(leanNatList("heuristicStatus", switchCases(funcDecl(ce, "isHeuristicallyCacheableCode"), "true")))
-
-	hp := parse(root, "internal/helpers.go")
-	b.WriteString(leanNatList("staleErrorStatus", switchCases(funcDecl(hp, "isStaleErrorAllowed"), "true")))
-	safe := switchCases(funcDecl(hp, "IsUnsafeMethod"), "false")
-	unsafeM := switchCases(funcDecl(hp, "IsUnsafeMethod"), "true")
-	if len(unsafeM) != 0 || len(safe) == 0 {
-		fail("IsUnsafeMethod is no longer of the form `case <safe methods>: return false; default: return true`")
-	}
-	b.WriteString(leanStrList("safeMethods", strs(safe)))
-
-	// hopByHopHeaders: keys of the first map literal
-	var hop []string
-	ast.Inspect(funcDecl(hp, "hopByHopHeaders"), func(n ast.Node) bool {
-		cl, ok := n.(*ast.CompositeLit)
-		if !ok || hop != nil {
-			return true
-		}
-		if _, ok := cl.Type.(*ast.MapType); !ok {
-			return true
-		}
-		for _, e := range cl.Elts {
-			kv := e.(*ast.KeyValueExpr)
-			v, ok := constOf(kv.Key)
-			if !ok {
-				fail("hopByHopHeaders: non-literal key")
-			}
-			hop = append(hop, v.(string))
-		}
-		return false
+	table(&b, "statusUnderstood", func() string {
+		return leanNatList("statusUnderstood", switchCases(funcDecl(parse(root, "internal/cacheabilityevaluator.go"), "isStatusUnderstood"), "true"))
 	})
-	b.WriteString(leanStrList("hopByHop", hop))
-
-	nz := parse(root, "internal/normalization.go")
-	lists := stringListsIn(funcDecl(nz, "initNormalizationHeader"))
-	if len(lists) != 5 {
-		fail("initNormalizationHeader: expected 5 []string literals, found %d", len(lists))
-	}
-	for i, n := range []string{"byQValue", "byEncoding", "byTimeInsensitive", "byOrderInsensitive", "byCaseInsensitive"} {
-		b.WriteString(leanStrList(n, lists[i]))
-	}
-	if v, ok := constOf(constValue(nz, "noVaryHash")); ok {
-		b.WriteString(fmt.Sprintf("def noVaryHash : String := %s\n", strconv.Quote(v.(string))))
-	}
-
-	ci := parse(root, "internal/cacheinvalidator.go")
-	var locs []string
-	for _, d := range ci.Decls {
-		if gd, ok := d.(*ast.GenDecl); ok {
-			for _, s := range gd.Specs {
-				if vs, ok := s.(*ast.ValueSpec); ok && vs.Names[0].Name == "locationHeaders" {
-					for _, e := range vs.Values[0].(*ast.CompositeLit).Elts {
-						v, _ := constOf(e)
-						locs = append(locs, v.(string))
+	table(&b, "heuristicStatus", func() string {
+		return leanNatList("heuristicStatus", switchCases(funcDecl(parse(root, "internal/cacheabilityevaluator.go"), "isHeuristicallyCacheableCode"), "true"))
+	})
+	table(&b, "staleErrorStatus", func() string {
+		return leanNatList("staleErrorStatus", switchCases(funcDecl(parse(root, "internal/helpers.go"), "isStaleErrorAllowed"), "true"))
+	})
+	table(&b, "safeMethods", func() string {
+		hp := parse(root, "internal/helpers.go")
+		safe := switchCases(funcDecl(hp, "IsUnsafeMethod"), "false")
+		unsafeM := switchCases(funcDecl(hp, "IsUnsafeMethod"), "true")
+		if len(unsafeM) != 0 || len(safe) == 0 {
+			fail("IsUnsafeMethod is no longer of the form `case <safe methods>: return false; default: return true`")
+		}
+		return leanStrList("safeMethods", strs(safe))
+	})
+	table(&b, "hopByHop", func() string {
+		var hop []string
+		ast.Inspect(funcDecl(parse(root, "internal/helpers.go"), "hopByHopHeaders"), func(n ast.Node) bool {
+			cl, ok := n.(*ast.CompositeLit)
+			if !ok || hop != nil {
+				return true
+			}
+			if _, ok := cl.Type.(*ast.MapType); !ok {
+				return true
+			}
+			for _, e := range cl.Elts {
+				kv := e.(*ast.KeyValueExpr)
+				v, ok := constOf(kv.Key)
+				if !ok {
+					fail("hopByHopHeaders: non-literal key")
+				}
+				hop = append(hop, v.(string))
+			}
+			return false
+		})
+		return leanStrList("hopByHop", hop)
+	})
+	table(&b, "byQValue byEncoding byTimeInsensitive byOrderInsensitive byCaseInsensitive", func() string {
+		lists := stringListsIn(funcDecl(parse(root, "internal/normalization.go"), "initNormalizationHeader"))
+		if len(lists) != 5 {
+			fail("initNormalizationHeader: expected 5 []string literals, found %d", len(lists))
+		}
+		out := ""
+		for i, n := range []string{"byQValue", "byEncoding", "byTimeInsensitive", "byOrderInsensitive", "byCaseInsensitive"} {
+			out += leanStrList(n, lists[i])
+		}
+		return out
+	})
+	table(&b, "noVaryHash", func() string {
+		v, ok := constOf(constValue(parse(root, "internal/normalization.go"), "noVaryHash"))
+		if !ok {
+			fail("noVaryHash is not a literal")
+		}
+		return fmt.Sprintf("def noVaryHash : String := %s\n", strconv.Quote(v.(string)))
+	})
+	table(&b, "locationHeaders", func() string {
+		ci := parse(root, "internal/cacheinvalidator.go")
+		var locs []string
+		for _, d := range ci.Decls {
+			if gd, ok := d.(*ast.GenDecl); ok {
+				for _, s := range gd.Specs {
+					if vs, ok := s.(*ast.ValueSpec); ok && vs.Names[0].Name == "locationHeaders" {
+						for _, e := range vs.Values[0].(*ast.CompositeLit).Elts {
+							v, _ := constOf(e)
+							locs = append(locs, v.(string))
+						}
 					}
 				}
 			}
 		}
-	}
-	b.WriteString(leanStrList("locationHeaders", locs))
-
-	hd := parse(root, "internal/header.go")
-	for _, n := range []string{"CacheStatusHeader", "FromCacheHeader", "FromCache"} {
-		if v, ok := constOf(constValue(hd, n)); ok {
-			b.WriteString(fmt.Sprintf("def %s : String := %s\n", strings.ToLower(n[:1])+n[1:], strconv.Quote(v.(string))))
+		if locs == nil {
+			fail("locationHeaders not found")
 		}
-	}
-	// CacheStatus values
-	var statuses []string
-	for _, n := range []string{"CacheStatusHit", "CacheStatusMiss", "CacheStatusStale", "CacheStatusRevalidated", "CacheStatusBypass"} {
-		cl, ok := constValue(hd, n).(*ast.CompositeLit)
-		if !ok || len(cl.Elts) != 2 {
-			fail("%s is not a two-element literal", n)
+		return leanStrList("locationHeaders", locs)
+	})
+	table(&b, "cacheStatusHeader fromCacheHeader fromCache cacheStatuses", func() string {
+		hd := parse(root, "internal/header.go")
+		out := ""
+		for _, n := range []string{"CacheStatusHeader", "FromCacheHeader", "FromCache"} {
+			v, ok := constOf(constValue(hd, n))
+			if !ok {
+				fail("%s is not a literal", n)
+			}
+			out += fmt.Sprintf("def %s : String := %s\n", strings.ToLower(n[:1])+n[1:], strconv.Quote(v.(string)))
 		}
-		v, _ := constOf(cl.Elts[0])
-		leg := "0"
-		if id, ok := cl.Elts[1].(*ast.Ident); ok && id.Name == "FromCache" {
-			leg = "1"
+		var statuses []string
+		for _, n := range []string{"CacheStatusHit", "CacheStatusMiss", "CacheStatusStale", "CacheStatusRevalidated", "CacheStatusBypass"} {
+			cl, ok := constValue(hd, n).(*ast.CompositeLit)
+			if !ok || len(cl.Elts) != 2 {
+				fail("%s is not a two-element literal", n)
+			}
+			v, _ := constOf(cl.Elts[0])
+			leg := "0"
+			if id, ok := cl.Elts[1].(*ast.Ident); ok && id.Name == "FromCache" {
+				leg = "1"
+			}
+			statuses = append(statuses, v.(string)+":"+leg)
 		}
-		statuses = append(statuses, v.(string)+":"+leg)
-	}
-	b.WriteString(leanStrList("cacheStatuses", statuses))
-
-	rt := parse(root, "roundtripper.go")
-	// DefaultSWRTimeout = N * time.Second
-	if be, ok := constValue(rt, "DefaultSWRTimeout").(*ast.BinaryExpr); ok {
+		return out + leanStrList("cacheStatuses", statuses)
+	})
+	table(&b, "defaultSWRTimeoutNs", func() string {
+		rt := parse(root, "roundtripper.go")
+		be, ok := constValue(rt, "DefaultSWRTimeout").(*ast.BinaryExpr)
+		if !ok {
+			fail("DefaultSWRTimeout is not a product")
+		}
 		n, ok1 := constOf(be.X)
 		se, ok2 := be.Y.(*ast.SelectorExpr)
 		if !ok1 || !ok2 || se.Sel.Name != "Second" {
 			fail("DefaultSWRTimeout is not N * time.Second")
 		}
-		b.WriteString(fmt.Sprintf("def defaultSWRTimeoutNs : Int := %d\n", n.(int)*1_000_000_000))
-	} else {
-		fail("DefaultSWRTimeout is not a product")
-	}
-	b.WriteString(leanStrList("upstreamCallSites", callSites(rt, "upstream", "RoundTrip")))
-	b.WriteString(leanStrList("goStatementsRoundtripper", goStmts(rt)))
-	tf := transportFields(rt)
-	b.WriteString(leanStrList("transportFieldWriters", transportFieldWriters(rt, tf)))
-	opt := parse(root, "options.go")
-	b.WriteString(leanStrList("transportFieldWritersOptions", transportFieldWriters(opt, tf)))
-
-	fn := parse(root, "store/fscache/filenamer.go")
-	if v, ok := constOf(constValue(fn, "fragmentSize")); ok {
-		b.WriteString(fmt.Sprintf("def fragmentSize : Nat := %d\n", v.(int)))
-	}
-	if v, ok := constOf(constValue(fn, "dirMarker")); ok {
-		b.WriteString(fmt.Sprintf("def dirMarker : String := %s\n", strconv.Quote(v.(string))))
-	}
-	fsc := parse(root, "store/fscache/fscache.go")
-	if v, ok := constOf(constValue(fsc, "tempFilePrefix")); ok {
-		b.WriteString(fmt.Sprintf("def tempFilePrefix : String := %s\n", strconv.Quote(v.(string))))
-	}
-	b.WriteString(leanStrList("goStatementsFscache", goStmts(fsc)))
-	// the os.Root operations of set, in source order (the syscall-level step list of C15)
-	var setOps []string
-	ast.Inspect(funcDecl(fsc, "set"), func(n ast.Node) bool {
-		call, ok := n.(*ast.CallExpr)
-		if !ok {
-			return true
+		return fmt.Sprintf("def defaultSWRTimeoutNs : Int := %d\n", n.(int)*1_000_000_000)
+	})
+	table(&b, "upstreamCallSites goStatementsRoundtripper transportFieldWriters transportFieldWritersOptions", func() string {
+		rt := parse(root, "roundtripper.go")
+		tf := transportFields(rt)
+		return leanStrList("upstreamCallSites", callSites(rt, "upstream", "RoundTrip")) +
+			leanStrList("goStatementsRoundtripper", goStmts(rt)) +
+			leanStrList("transportFieldWriters", transportFieldWriters(rt, tf)) +
+			leanStrList("transportFieldWritersOptions", transportFieldWriters(parse(root, "options.go"), tf))
+	})
+	table(&b, "fragmentSize dirMarker", func() string {
+		fn := parse(root, "store/fscache/filenamer.go")
+		v1, ok1 := constOf(constValue(fn, "fragmentSize"))
+		v2, ok2 := constOf(constValue(fn, "dirMarker"))
+		if !ok1 || !ok2 {
+			fail("fragmentSize / dirMarker are not literals")
 		}
-		if se, ok := call.Fun.(*ast.SelectorExpr); ok {
-			switch x := se.X.(type) {
-			case *ast.SelectorExpr:
-				if x.Sel.Name == "root" {
-					setOps = append(setOps, "root."+se.Sel.Name)
-				}
-			case *ast.Ident:
-				if x.Name == "f" {
-					setOps = append(setOps, "f."+se.Sel.Name)
+		return fmt.Sprintf("def fragmentSize : Nat := %d\ndef dirMarker : String := %s\n", v1.(int), strconv.Quote(v2.(string)))
+	})
+	table(&b, "tempFilePrefix goStatementsFscache fsSetOps", func() string {
+		fsc := parse(root, "store/fscache/fscache.go")
+		v, ok := constOf(constValue(fsc, "tempFilePrefix"))
+		if !ok {
+			fail("tempFilePrefix is not a literal")
+		}
+		var setOps []string
+		ast.Inspect(funcDecl(fsc, "set"), func(n ast.Node) bool {
+			call, ok := n.(*ast.CallExpr)
+			if !ok {
+				return true
+			}
+			if se, ok := call.Fun.(*ast.SelectorExpr); ok {
+				switch x := se.X.(type) {
+				case *ast.SelectorExpr:
+					if x.Sel.Name == "root" {
+						setOps = append(setOps, "root."+se.Sel.Name)
+					}
+				case *ast.Ident:
+					if x.Name == "f" {
+						setOps = append(setOps, "f."+se.Sel.Name)
+					}
 				}
 			}
-		}
-		return true
+			return true
+		})
+		return fmt.Sprintf("def tempFilePrefix : String := %s\n", strconv.Quote(v.(string))) +
+			leanStrList("goStatementsFscache", goStmts(fsc)) + leanStrList("fsSetOps", setOps)
 	})
-	b.WriteString(leanStrList("fsSetOps", setOps))
 	b.WriteString("end Httpcache.Generated\n")
 	fmt.Print(b.String())
 }
